@@ -396,7 +396,7 @@ func (olds Segment) Rename(news Segment) error {
 
 func (olds Segment) Override(news Segment) error {
 	// remove index segment so we don't have invalid index
-	if err := os.Remove(news.Index); err != nil {
+	if err := os.Remove(news.Index); err != nil && !errors.Is(err, os.ErrNotExist) {
 		return fmt.Errorf("override index delete: %w", err)
 	}
 
@@ -415,7 +415,7 @@ func (olds Segment) Override(news Segment) error {
 }
 
 func (s Segment) Remove() error {
-	if err := os.Remove(s.Index); err != nil {
+	if err := os.Remove(s.Index); err != nil && !errors.Is(err, os.ErrNotExist) {
 		return fmt.Errorf("remove index delete: %w", err)
 	}
 	if err := os.Remove(s.Log); err != nil {
